@@ -684,8 +684,8 @@ names), C03_roundtrip_consistent_partial (whatever was serialized, if the proto 
 the use-def invariant).
 C03_iso IS PROVED (Property.v, closed under the global context; proof: C03/Tree.v TreeF.v IsoSer.v IsoSerF.v
 IsoDeserA..I.v IsoDeser.v IsoDeserM.v IsoThm.v IsoThmF.v): forall np h m, serializable_tm np h m = true ->
-exists h1 q h2 m2, ser_model np h m = Ok (h1,q) /\ deser_model q = Ok (h2,m2) /\ unfold_model [] h2 m2 =
-unfold_model np h m /\ Inv h2, for whole models (nested graphs with captured outer-scope values, unsorted node
+exists h1 q h2 m2, ser_model np h m = Ok (h1,q) and deser_model q = Ok (h2,m2) and unfold_model [] h2 m2 =
+unfold_model np h m and Inv h2, for whole models (nested graphs with captured outer-scope values, unsorted node
 order, optional inputs, empty-named outputs, initializers, model-local functions); C03_iso_graphs is the version for
 models without functions.  Isomorphism is stated as EQUALITY OF UNFOLDINGS: unfold_model replaces every value
 occurrence by (scope depth, index among the values the scope defines), computed from object identity, and keeps
